@@ -1,4 +1,5 @@
 from enum import Enum
+from threading import RLock
 from typing import (
     Any,
     Collection,
@@ -116,6 +117,11 @@ class SerializationRecursiveChecker(
     pass
 
 
+# RecursiveChecker instances of a same direction share (read and write) the same cache
+# while visiting; interleaved visits could record a recursive type as non-recursive
+_recursion_lock = RLock()
+
+
 @cache  # use @cache for reset
 def recursion_cache(checker_cls: Type[RecursiveChecker]) -> Dict[RecursionKey, bool]:
     return {}
@@ -129,9 +135,10 @@ def is_recursive(
     checker_cls: Type[RecursiveChecker],
 ) -> bool:
     cache, rec_key = recursion_cache(checker_cls), (tp, conversion)
-    if rec_key not in cache:
-        checker_cls(default_conversion).visit_with_conv(tp, conversion)
-    return cache[rec_key]
+    with _recursion_lock:
+        if rec_key not in cache:
+            checker_cls(default_conversion).visit_with_conv(tp, conversion)
+        return cache[rec_key]
 
 
 class RecursiveConversionsVisitor(ConversionsVisitor[Conv, Result]):
